@@ -345,6 +345,15 @@ def run(chk):
     swap_axes_def_check(chk, mod)
     swap_index_check(chk, mod, fp, fu)
     permcheck.check_layout_handler(chk, mod)
+    # the cached route map is only read by the transposes
+    from .. import lints
+    for q in (f"{CLS}.transpose", f"{CLS}._transposeRedirect", f"{CLS}._transposeRedirect_source_intact"):
+        f_ = mod.func(q)
+        muts = lints.shared_state_mutations(f_, lambda s_: s_.startswith("self._route_map") or s_.startswith("self._layouts") or s_.startswith("self._handlers"))
+        chk.ob("G2-no-shared-mutation", f_, f"{q} vs the cached route map", not muts,
+               "the route map and layout tables are only read" if not muts else "; ".join(d for _, d in muts) +
+               " - the stored route is shortened/changed by a transpose: the next transpose between the same layouts takes a wrong route",
+               file=U.LAYOUT, func=q)
     chk.floor("D2-result-in-dest", 14)
     chk.floor("D1-source-intact", 7)
     chk.floor("G1-", 6)
